@@ -296,8 +296,11 @@ def _run_pipe(run, spec):
         return "pipeline:refused-in-domain" if kind == "guard" else "pipeline:crash"
 
     st, res = _guarded(run, lambda: coll(batch), REFUSAL if expect_refusal else None, crash_key, desc)
-    for m in members:
-        for f in m.flags:
+    for k, m in enumerate(members):
+        # only where the member was handed what the reference says (otherwise the helper was fed the pipeline's mistake)
+        if not (len(m.log) == 1 and k < len(model["inputs"]) and eq(m.log[0]["input"], model["inputs"][k][1])):
+            continue
+        for f in m.flags[:1]:
             run.violation(K_SETITEM, f"{desc}: member {m.k} used ModeWrapper.set_item(mode={f['mode']!r}, item={f['item']!r}) on "
                                      f"{f['container']} and got {f['returned']} (container layout not kept; shared with C10/C01)")
     if st == "refused":
